@@ -56,6 +56,12 @@ class Ob:
     fs = [a if not isinstance(a, bool) else z3.BoolVal(a) for a in parts]
     if not fs:
       fs = [z3.BoolVal(True)]
+    if os.environ.get('VERIF_OB_VIA_SOLVER'):
+      s_ = z3.Solver()
+      for a in fs:
+        s_.add(a)
+      self.smt2 = s_.to_smt2()
+      return self.smt2
     ctx = fs[0].ctx
     n = len(fs) - 1
     arr = (z3.Ast * n)()
@@ -86,10 +92,10 @@ class _Worker:
         pass
       self.p = None
 
-  def solve(self, path, timeout, tactic, grace=5.0):
+  def solve(self, path, timeout, tactic, grace=5.0, incremental=False, mode=None):
     if self.p is None or self.p.poll() is not None:
       self.start()
-    req = json.dumps({'path': path, 'timeout': timeout, 'tactic': tactic})
+    req = json.dumps({'path': path, 'timeout': timeout, 'tactic': tactic, 'incremental': incremental, 'mode': mode})
     t0 = time.time()
     result = {}
 
